@@ -383,6 +383,23 @@ func vCaseC10(t *rapid.T, st *verifkit.Stats) {
 		ops[rapid.IntRange(0, len(ops)-1).Draw(t, "op")]()
 	}
 
+	// in a quarter of the histories: a run of snapshots with fresh contents, one upload session
+	// each, so that >= 10 fully used small packs exist (the planner repacks small packs only
+	// when there are at least 10 candidates)
+	if rapid.IntRange(0, 3).Draw(t, "manySmall") == 0 {
+		c := setComp()
+		k := rapid.IntRange(5, 7).Draw(t, "manySmallK")
+		var snaps []vSynthSnapC10
+		for i := 0; i < k; i++ {
+			snaps = append(snaps, vSynthSnapC10{Tag: fmt.Sprintf("s%d", synthN), Root: []uint64{uint64(1000 + 2*synthN), uint64(1001 + 2*synthN)}})
+			synthN++
+		}
+		if err := vSaveSynthC10(e, snaps); err != nil {
+			t.Fatalf("synthetic snapshots: %v", err)
+		}
+		step("manysmall%s(%d snapshots)", c, k)
+	}
+
 	// finale: delete packs that hold only unreachable blobs (missing but unneeded)
 	pre, err := vTakeViewC10(e, key)
 	if err != nil {
